@@ -1,9 +1,11 @@
 package websocket
 
 import (
+	"bufio"
 	"context"
 	"errors"
 	"io"
+	"net"
 	"time"
 )
 
@@ -99,7 +101,15 @@ func verifC18_end() {
 	}
 	t := vNewTransport(vEncodeFrames(in))
 	t.endMode = vEndBlock
-	c := vNewConn(t, client, nil, 32, 64)
+	var c *Conn
+	if wrongType && vChoose("peerAddr", 2) == 1 {
+		// the transport is a net.Conn whose peer address prints long (a full IPv6 address with port, a unix socket path):
+		// whatever the library tells the peer about the failure, the Close frame with 1003 still goes out
+		ac := &vAddrConn{vNetConn{t}, vLongAddr("[2a02:8108:8ac0:3a5c:d9f3:4a1c:7be2:91aa]:51234/a/rather/long/unix/socket/path/of/a/peer/that/connected/through/a/proxy")}
+		c = newConn(connConfig{rwc: ac, client: client, br: bufio.NewReaderSize(ac, 32), bw: bufio.NewWriterSize(ac, 64)})
+	} else {
+		c = vNewConn(t, client, nil, 32, 64)
+	}
 	nc := NetConn(vBG, c, MessageBinary)
 	p := make([]byte, 4)
 	n, err := nc.Read(p)
@@ -327,3 +337,16 @@ func verifC18_stream_deflate() {
 	rcv.CloseNow()
 	vObserve("stream-deflate", got)
 }
+
+type vLongAddr string
+
+func (a vLongAddr) Network() string { return "tcp" }
+func (a vLongAddr) String() string  { return string(a) }
+
+// vAddrConn is a net.Conn over the scripted transport with a chosen peer address.
+type vAddrConn struct {
+	vNetConn
+	remote net.Addr
+}
+
+func (c *vAddrConn) RemoteAddr() net.Addr { return c.remote }
